@@ -82,10 +82,21 @@ def c12(chk):
     v, st = engine.run(chk, "feng", {"w": cw, "b": cb, "maxGap": cg, "behaviours": beh}, "cover", "TraceF", tc,
                        FD_TRACE, "feng-trace", what="the real failure detector")
     ops.update(st["by_op"])
-    for w in ([2, 50] if quick else [1, 2, 3, 5, 50]):
-        mg = 9
+    # a peer whose rhythm changes by more than the threshold factor (one gap of 100 after gaps of 1, and back): every
+    # sequence of the bounded model over these two gaps
+    jc = {"W": 2, "B": 2, "Gaps": {1, 100}, "MaxLen": 6 if quick else 8, "Theta": 20}
+    G.model_check(chk, "C12-jump", jc, FD_INV, [], view=None, module="FailureDetector")
+    beh, info = G.gen_cover(chk, "C12-cover-jump", jc, module="FailureDetector", view=None, max_len=40)
+    chk.notes["cover_jump"] = info
+    chk.exhaustive = chk.exhaustive and info["uncovered_edges"] == 0
+    v, st = engine.run(chk, "feng", {"w": 2, "b": 2, "maxGap": 100, "behaviours": beh}, "cover-jump", "TraceF",
+                       dict(jc, MaxLen=1000000), FD_TRACE, "feng-trace", what="the real failure detector")
+    for k, n in st["by_op"].items():
+        ops[k] = ops.get(k, 0) + n
+    for w, mg in ([(2, 9), (50, 9), (3, 3000)] if quick else [(1, 9), (2, 9), (3, 9), (5, 9), (50, 9), (2, 3000),
+                                                               (5, 3000), (50, 3000)]):
         sched = {"w": w, "b": 4, "maxGap": mg, "walks": 40 if quick else 600, "depth": 4 * w + 20}
-        v, st = engine.run(chk, "feng", sched, "walks-W%d" % w, "TraceF", fd_consts(w, 4, mg, 1000000), FD_TRACE,
+        v, st = engine.run(chk, "feng", sched, "walks-W%d-G%d" % (w, mg), "TraceF", fd_consts(w, 4, mg, 1000000), FD_TRACE,
                            "feng-trace", what="the real failure detector")
         for k, n in st["by_op"].items():
             ops[k] = ops.get(k, 0) + n
